@@ -241,12 +241,12 @@ theorem paLoop_spec (cap : Nat) : ∀ (fuel : Nat) (st st' : PA), paLoop cap fue
 /-! ### `push_and_encode` -/
 
 theorem pushEnc_spec (cap : Nat) : ∀ (toPush newPages : List Nat) (ps : List Portion) (written : List Nat)
-    (ps' : List Portion) (w' : List Nat), pushEnc cap toPush newPages ps written = some (ps', w') →
+    (unt : Bool) (ps' : List Portion) (w' : List Nat), pushEnc cap toPush newPages ps written unt = some (ps', w') →
     ∀ a, List.count a (pagesOf ps') = List.count a (pagesOf ps) + List.count a toPush + List.count a newPages := by
   intro toPush
   induction toPush with
   | nil =>
-    intro newPages ps written ps' w' h a
+    intro newPages ps written unt ps' w' h a
     simp only [pushEnc] at h
     split at h
     · rename_i he
@@ -258,14 +258,14 @@ theorem pushEnc_spec (cap : Nat) : ∀ (toPush newPages : List Nat) (ps : List P
       simp
     · cases h
   | cons pn rest ih =>
-    intro newPages ps written ps' w' h a
+    intro newPages ps written unt ps' w' h a
     simp only [pushEnc] at h
     split at h
     · split at h
       · cases h
       · rename_i np nps
         split at h
-        · have := ih _ _ _ _ _ h a
+        · have := ih _ _ _ _ _ _ h a
           rw [this, count_pagesOf_cons]
           simp only [List.count_cons, List.count_nil]
           omega
@@ -273,7 +273,7 @@ theorem pushEnc_spec (cap : Nat) : ∀ (toPush newPages : List Nat) (ps : List P
     · split at h
       · rename_i hd items r
         split at h
-        · have := ih _ _ _ _ _ h a
+        · have := ih _ _ _ _ _ _ h a
           rw [this, count_pagesOf_cons, count_pagesOf_cons]
           simp only [List.count_cons]
           omega
@@ -310,7 +310,7 @@ theorem commit_spec {cap : Nat} {s : State} {freed : List Nat} {r : Committed} (
           injection h with h; subst h
           obtain ⟨s1, s2⟩ := paStart_spec h0
           obtain ⟨l1, l2, _, l4⟩ := paLoop_spec cap _ st0 st h1
-          have p1 := pushEnc_spec cap _ _ _ _ _ _ h2
+          have p1 := pushEnc_spec cap _ _ _ _ _ _ _ h2
           simp only
           refine ⟨by omega, by simp, ?_, ?_⟩
           · intro hex
